@@ -10,6 +10,9 @@ use std::fmt::{self, Debug, Display, Formatter};
 use std::hash::{BuildHasher, Hash};
 use std::sync::atomic::{AtomicIsize, Ordering};
 
+#[cfg(feature = "verif")]
+pub(crate) mod verif_map;
+
 const ISIZE_BITS: usize = core::mem::size_of::<isize>() * 8;
 
 /// The largest possible table capacity.  This value must be
